@@ -446,6 +446,34 @@ mod dropshared {
         v
     }
 }
+/// a program with the scheduler plugin on the real WASM runtime (WasmDspRuntime, the code path of the CLI)
+fn run_wasm_sched(src: &str, times: usize) -> Result<Vec<f64>, String> {
+    use mimium_lang::{Config, ExecContext};
+    use mimium_lang::compiler::wasmgen::WasmGenerator;
+    use mimium_lang::runtime::{self, DspRuntime};
+    use mimium_lang::runtime::wasm::engine::{WasmDspRuntime, WasmEngine};
+    let mut ctx = ExecContext::new([].into_iter(), None, Config::default());
+    ctx.add_system_plugin(mimium_scheduler::get_default_scheduler_plugin());
+    ctx.prepare_compiler();
+    let ext_fns = ctx.get_extfun_types();
+    let mir = ctx.get_compiler().ok_or("no compiler")?.emit_mir(src)
+        .map_err(|e| e.iter().map(|x| x.get_message()).collect::<Vec<_>>().join("; "))?;
+    let mut wasmgen = WasmGenerator::new(std::sync::Arc::new(mir), &ext_fns);
+    let bytes = wasmgen.generate().map_err(|e| format!("wasmgen: {e}"))?;
+    let plugin_fns = ctx.freeze_wasm_plugin_fns();
+    let workers = ctx.generate_wasm_audioworkers();
+    let mut engine = WasmEngine::new(&ext_fns, plugin_fns).map_err(|e| format!("wasm engine: {e}"))?;
+    engine.load_module(&bytes).map_err(|e| format!("wasm load: {e}"))?;
+    let mut rt = WasmDspRuntime::new(engine, None, None);
+    rt.set_wasm_audioworkers(workers);
+    let _ = rt.run_main();
+    let mut out = vec![];
+    for t in 0..times {
+        rt.run_dsp(runtime::Time(t as u64));
+        out.push(rt.get_output(1).first().copied().unwrap_or(f64::NAN));
+    }
+    Ok(out)
+}
 fn branch_state_programs() -> Vec<(String, Vec<f64>, String)> {
     vec![
         ("fn cnt(){ self + 1.0 }\nfn sel(c){\n  if (c) { cnt() } else { cnt()*10.0 }\n}\nfn dsp(){\n  let a = sel(0.0)\n  let b = cnt()\n  a + b*1000.0\n}\n".to_string(),
@@ -967,6 +995,35 @@ fn main() {
             }
         }
         println!("HOLDS tried={}", dropshared::cases().len());
+        return;
+    }
+    if args.get(1).map(|s| s.as_str()) == Some("module-let") {
+        // known findings F18 / F19 (C17): members of a module that cannot even be declared `pub` are reachable from outside
+        let idx: usize = args.get(2).and_then(|s| s.parse().ok()).unwrap_or(0);
+        let progs = [
+            ("mod m {\n  fn hidden(){ 7.0 }\n  let y = hidden()\n}\nfn dsp(){ y }\n", "a module-level `let` of module m is referenced from outside the module by its bare name"),
+            ("mod m {\n  type Shape = Circle(float) | Square(float)\n  pub fn area(s){ match s { Circle(r) => r, Square(w) => w } }\n}\nfn dsp(){ m::area(Circle(3.0)) }\n", "a constructor of the non-pub type m::Shape is used outside the module by its bare name"),
+        ];
+        let (src, desc) = progs[idx.min(progs.len() - 1)];
+        let errs = compile_errors(src);
+        if errs.is_empty() {
+            println!("FAILS C17[a member not declared pub cannot be referenced from outside its module] {desc}: the program is accepted ({:?})", run_vm(src, 1));
+        } else {
+            println!("HOLDS rejected: {errs:?}");
+        }
+        return;
+    }
+    if args.get(1).map(|s| s.as_str()) == Some("wasm-sched-closure") {
+        // known finding F20 (C11): a closure created inside dsp that captures a per-sample local and is scheduled for a
+        // later sample; by the time it runs on the WASM runtime its memory has been reused
+        let src = "let x = 0.0\nfn dsp(){\n  let n = now\n  | |{ x = x + n }@(now+2.5)\n  x\n}\n";
+        let expect: Vec<f64> = (0..8i64).map(|s| (0..=(s - 2).max(-1)).map(|t| t as f64).sum::<f64>() + 0.0).collect();
+        let vm = run_vm_sched(src, 8);
+        let wasm = run_wasm_sched(src, 8);
+        match (&vm, &wasm) {
+            (Ok(a), Ok(b)) if *a == expect && *b == expect => println!("HOLDS"),
+            _ => println!("FAILS C11[each task runs exactly once at its sample ..; the VM and WASM runtimes agree] closures created in dsp capturing the current sample index, scheduled 2.5 samples ahead: expected {expect:?}, vm={vm:?}, wasm={wasm:?}"),
+        }
         return;
     }
     if args.get(1).map(|s| s.as_str()) == Some("run-src") {
